@@ -5,6 +5,8 @@
 //! f_de:   a[0] = [cfg_id, N, 0, compress, validate]  a[1] = [p]  a[2] = [tower]  a[3] = bytes
 //! po_de:  a[0] = [cfg_id, N, compress, validate]  a[1] = [p]  a[2] = [tower]  a[3] = [nr2, nr6_c0, nr6_c1]
 //!         a[4] = [r]  a[5] = bytes
+//!         tower = 4 | 12 (extension degree), or 32 = "2 over 3": Fp6 = Fp3[v]/(v^2 - u), Fp3 = Fp[u]/(u^3 - nr3),
+//!         a[3] = [nr3] (CP6-782, BW6-767, BW6-761, MNT6-298)
 //! point ops (sw_de, te_de, zc_de, sw_check, te_check):
 //!   a[0] = [curve_id, N, compress, validate, projective]
 //!   a[1] = [p, deg]  a[2] = [nr]  a[3] = COEFF_A  a[4] = COEFF_B|COEFF_D  a[5] = [r]  a[6] = COFACTOR limbs
@@ -139,10 +141,12 @@ fn run_po<E: Pairing>(op: &str, a: &[Arg]) -> Vec<Arg> {
             coords(&(v * v)),
             coords(&(v * v * v)),
             coords(&(w * w)),
+            coords(&(uu * uu * uu)),
         ]);
     }
     check_modulus::<Tf<E>>(a);
-    assert_eq!(to_usize(&a[2][0]), d, "harness: tower degree differs");
+    let tw = to_usize(&a[2][0]);
+    assert_eq!(if tw == 32 { 6 } else { tw }, d, "harness: tower degree differs");
     let r: BigUint = <E::ScalarField as PrimeField>::MODULUS.into();
     assert_eq!(u(&a[4][0]), r, "harness: r differs");
     match op {
@@ -468,6 +472,11 @@ fn dispatch(op: &str, a: &[Arg]) -> Vec<Arg> {
             1 => run_po::<ark_bn254::Bn254>(op, a),
             2 => run_po::<ark_mnt4_298::MNT4_298>(op, a),
             3 => run_po::<ark_test_curves::bls12_381::Bls12_381>(op, a),
+            // target field Fp6 = 2 over 3 (cyclotomic square = plain squaring)
+            4 => run_po::<ark_cp6_782::CP6_782>(op, a),
+            5 => run_po::<ark_bw6_767::BW6_767>(op, a),
+            6 => run_po::<ark_bw6_761::BW6_761>(op, a),
+            7 => run_po::<ark_mnt6_298::MNT6_298>(op, a),
             _ => unsupported(),
         };
     }
